@@ -216,6 +216,71 @@ def must_facts(fn, bid):
     return out
 
 
+def run_ps(fn, init_states, transfer, refine=None, **kw):
+    """flow.run, path-sensitive on what folded bool helpers returned: when a virtually inlined call leaves through a `return
+    true` / `return false`, the state remembers that constant for that call; a branch whose condition -- read with the remembered
+    constants, Kleene-style -- comes out the other way is not taken.  `if(!(held_<0>() || held_<1>() || held_<2>()))` over
+    folded helpers then behaves like the if/else chain it stands for, without the rule knowing about it."""
+    v2c = {}
+    for n in fn.all_nodes():
+        if n.d.get("inlined") and isinstance(n.d.get("rets"), list):
+            for r in n.d["rets"]:
+                v2c[r] = n.id
+    if not v2c:
+        return run(fn, init_states, transfer, refine, **kw)
+
+    def const_of(v):
+        x = v.strip()
+        hops = 0
+        while x.kind in ("ImplicitCastExpr", "ParenExpr", "ExprWithCleanups") and x.children and hops < 6:
+            x, hops = x.children[0].strip(), hops + 1
+        if x.kind == "CXXBoolLiteralExpr":
+            return 1 if x.get("bv") else 0
+        c = x.cv() if x.kind not in ("DeclRefExpr", "MemberExpr") else None
+        return c if c in (0, 1) else None
+
+    def tr(n, s2):
+        s, rm = s2
+        if n.kind == "InlinedReturn" and n.d.get("val") in v2c:
+            call = v2c[n.d["val"]]
+            c = const_of(fn.node(n.d["val"]))
+            rm = frozenset(p for p in rm if p[0] != call)
+            if c is not None and len(rm) < 16:
+                rm = rm | {(call, c)}
+        return [(t, rm) for t in transfer(n, s)]
+
+    def rf(cond, truth, s2):
+        s, rm = s2
+        if rm:
+            m = dict(rm)
+
+            def val(leaf):
+                x = leaf
+                hops = 0
+                while x is not None and hops < 8:
+                    if x.id in m:
+                        return m[x.id]
+                    if x.d.get("inlined") and isinstance(x.d.get("rets"), list) and len(x.d["rets"]) == 1:
+                        # a folded helper with one return: its value is that expression (`return (a() || b() || c());`)
+                        return sem_eval(fn.node(x.d["rets"][0]), val)
+                    if x.kind in ("ImplicitCastExpr", "ParenExpr", "ExprWithCleanups", "CXXBindTemporaryExpr") and x.children:
+                        x, hops = x.children[0], hops + 1
+                    else:
+                        break
+                return None
+            try:
+                v = sem_eval(cond, val)
+            except Exception:
+                v = None
+            if v is not None and bool(v) != bool(truth):
+                return []
+        res = refine(cond, truth, s) if refine is not None else [s]
+        return [(t, rm) for t in res]
+    ins, ex = run(fn, [(s, frozenset()) for s in init_states], tr, rf, **kw)
+    ins2 = {b: {t[0] for t in ss} for b, ss in ins.items()}
+    return ins2, {t[0] for t in ex}
+
+
 def facts_at(fn, node_id):
     pos = fn.positions()
     if node_id not in pos:
